@@ -3862,6 +3862,12 @@ static void print_error_context_line(int line, int column, int caret_len, const 
     fprintf(stderr, "%s\n", CEND);
 }
 
+/* Number of error diagnostics printed by emit_context_error() during the current
+ * type_check() / type_check_module() run.  Expression-level checks have no TypeChecker to
+ * flag, so the run's verdict also consults this counter: a reported type error must fail
+ * the compilation (spec 3.3), not just be printed. */
+static int g_typecheck_error_diagnostics = 0;
+
 static void emit_context_error(
     const char *title,
     int line,
@@ -3870,6 +3876,12 @@ static void emit_context_error(
     const char *message,
     const char *hint
 ) {
+    /* A mismatch against a type the checker itself could not infer ("unknown": opaque
+     * handles, some extern results) stays advisory; every other error reported while the
+     * program itself is checked is fatal (imported modules keep their old, lenient verdict). */
+    if (!(message && strstr(message, "unknown"))) {
+        g_typecheck_error_diagnostics++;
+    }
     if (g_typecheck_current_file) {
         print_error_header(title, g_typecheck_current_file);
     } else {
@@ -4789,6 +4801,7 @@ static bool functions_match(Function *f1, Function *f2) {
 }
 
 bool type_check(ASTNode *program, Environment *env) {
+    int diagnostics_at_start = g_typecheck_error_diagnostics;
     if (!program || program->type != AST_PROGRAM) {
         fprintf(stderr, "Error: Invalid program AST\n");
         return false;
@@ -5603,7 +5616,7 @@ sdef.is_pub = item->as.struct_def.is_pub;            /* Propagate public visibil
         tc.has_error = true;
     }
 
-    return !tc.has_error;
+    return !tc.has_error && g_typecheck_error_diagnostics == diagnostics_at_start;
 }
 
 /* Type check a module (without requiring main function) */
